@@ -147,7 +147,7 @@ func genC12(seed uint64, idx int, tier string) *Plan {
 		g.z.RRs = append(g.z.RRs, simdoh.RR{Name: in.Host, Type: simdoh.TypeA, TTL: 60, IP: g.v4()}, simdoh.RR{Name: in.Host, Type: simdoh.TypeAAAA, TTL: 60, IP: g.v6()})
 	}
 	g.finish()
-	big := idx%12 == 5
+	big := idx%12 == 4 // (mutation plans have even indices)
 	if big {
 		// a response of 1.5 .. 4 KiB: many address records, large ECH
 		// configurations, long target names
@@ -158,6 +158,22 @@ func genC12(seed uint64, idx int, tier string) *Plan {
 			g.z.RRs = append(g.z.RRs, simdoh.RR{Name: in.Host, Type: simdoh.TypeHTTPS, TTL: 60, Target: strings.Repeat("t", 40+i) + "." + strings.Repeat("u", 63) + ".test",
 				Svc: &simdoh.Svc{Priority: uint16(10 + i), ALPN: []string{"h2", "h3"}, ECH: core.Bytes(r, 300+r.IntN(500)), V4Hint: []string{g.v4(), g.v4()}, V6Hint: []string{g.v6()}}})
 		}
+	}
+	if big || idx%12 == 8 {
+		// a target name close to the 253 octets a name may have (the follow-up
+		// queries for its addresses are padded like any other)
+		L := []int{224, 231, 240, 247, 253}[(idx/12)%5]
+		name := ".test"
+		for ch := byte('p'); len(name) < L; ch++ {
+			lab := min(63, L-len(name)-1)
+			if lab <= 0 {
+				break
+			}
+			name = "." + strings.Repeat(string(ch), lab) + name
+		}
+		name = strings.TrimPrefix(name, ".")
+		g.z.RRs = append(g.z.RRs, simdoh.RR{Name: in.Host, Type: simdoh.TypeHTTPS, TTL: 60, Target: name, Svc: &simdoh.Svc{Priority: 3, ALPN: []string{"h2"}}},
+			simdoh.RR{Name: name, Type: simdoh.TypeA, TTL: 60, IP: g.v4()})
 	}
 	p.Zone = g.z
 	// (the base response of a mutation plan must be a valid message: names that
